@@ -405,7 +405,8 @@ def apply_op(w, op, res):
                 # what a step changed and the scenario itself declares goes back to the declared value with the next run or
                 # session (the runner re-applies the scenario's constants and points); only what the scenario does not
                 # declare stays as the step left it
-                sh["tainted"] -= (set(sh["constants"]) | set(sh["points"]))
+                # (a table that was edited in place on the scenario's model is model-level state, not something the scenario declares)
+                sh["tainted"] -= ((set(sh["constants"]) | set(sh["points"])) - set(sh.get("poked", ())))
                 res.probe("step_settings_expire_with_the_session")
         w.session = set()
     elif kind == "rest_run":
@@ -433,6 +434,7 @@ def apply_op(w, op, res):
             table[op["index"]][1] = op["y"]
             b.reset_scenario_cache(scenario_manager=op["manager"], scenario=op["scenario"])
             sh["points"][op["table"]] = [list(p_) for p_ in table]
+            sh.setdefault("poked", set()).add(op["table"])
             res.probe("point_edited_in_place")
     elif kind == "add_scenario":
         res.probe("scenario_registered_again" if (op["manager"], op["name"]) in w.shadow else "scenario_added_later")
